@@ -67,7 +67,7 @@ func (b Bytes) TrimSpacesFromLeft() Bytes {
 			return b[i:]
 		}
 	}
-	return b
+	return b[len(b):]
 }
 
 func (b Bytes) CountSpacesFromLeft() int {
